@@ -64,3 +64,23 @@ build_wasmnative() { # the binding's Go sources compiled natively through an ove
   return 0
 }
 prepare_C20() { prepare_default && build_wasm && build_wasmnative; }
+
+prepare_C09() {
+  prepare_default || return 1
+  export GO_BIN
+  (cd "$VERIF_ROOT/harness" && GOWORK=off "$GO_BIN" build $OVL -gcflags=all=-l -o "$S/ctdriver" ./cmd/ctdriver) 2>>"$S/build.err" && export VERIF_CTDRIVER_BIN=$S/ctdriver || { cat "$S/build.err" >&2; return 1; }
+  # optional targets: failure => that target is reported inconclusive
+  REPO=$REPO VERIF_ROOT=$VERIF_ROOT python3 "$VERIF_ROOT/tools/mkwasmnative.py" "$S/wn" 2>>"$S/build.err" && \
+    (cd "$REPO" && GOFLAGS= "$GO_BIN" build -overlay="$S/wn/overlay.json" -tags verif_wasmnative -gcflags=all=-l -o "$S/wasmnative.noinline" ./wasm) 2>>"$S/build.err" && export VERIF_WASMNATIVE_NOINLINE_BIN=$S/wasmnative.noinline
+  build_server "$S/server.noinline" -gcflags=all=-l 2>/dev/null && export VERIF_SERVER_NOINLINE_BIN=$S/server.noinline
+  return 0
+}
+
+# harness built with the overlay that compiles the js/wasm Go sources natively (falls back to the plain harness)
+prepare_C13() {
+  if REPO=$REPO VERIF_ROOT=$VERIF_ROOT python3 "$VERIF_ROOT/tools/mkwasmnative.py" "$S/wn" 2>>"$S/build.err" && \
+     (cd "$VERIF_ROOT/harness" && GOWORK=off "$GO_BIN" build -overlay="$S/wn/overlay.json" -tags verif,verif_wasmnative -o "$S/check" ./cmd/check) 2>>"$S/build.err"; then
+    CHECK_BIN=$S/check; HOOKS=on; return 0
+  fi
+  prepare_default
+}
